@@ -118,7 +118,15 @@ def gas_sweeps(comp):
     gv = {"N2": n2, "H2S": h2s, "CO2": co2, "Gas Specific Gravity": g, "Reservoir Temperature (deg F)": T}
     what = f"gas gravity={g} T={T} N2={n2} H2S={h2s} CO2={co2} {dry} maximum_pressure={pmax}"
     meta = {"what": what, "comp": list(comp)}
-    df = build_pvt_gas(gv, dry, pmax)
+    if int(round(T * 100)) % 2 == 0:
+        # a caller that built this table before and rescaled / overwrote its columns in place (docs/oil_flow.ipynb does that with
+        # the pseudopressure column) asks for it again with equal arguments
+        first = build_pvt_gas(dict(gv), dry, pmax)
+        first["pseudopressure"] = (first["pseudopressure"] - first["pseudopressure"].iloc[3]) / 7.0
+        first["z-factor"] *= 0.5
+        first["viscosity"] = first["viscosity"].to_numpy()[::-1].copy()
+        meta["what"] = what = what + " (built before, edited in place by the caller, built again)"
+    df = build_pvt_gas(dict(gv), dry, pmax)
     p = df["pressure"].to_numpy(dtype=float)
     mu = df["viscosity"].to_numpy(dtype=float)
     z = df["z-factor"].to_numpy(dtype=float)
@@ -155,6 +163,8 @@ def gas_sweeps(comp):
         return float(gas.pseudopressure_Hussainy(T, pp, tpc, ppc, g, ref))
 
     zero_ref = hussainy(14.7) == 0.0
+    zero_zero = hussainy(0.0, 0.0) == 0.0          # the textbook base of Al-Hussainy's integral is 0 psia
+    m_std_from_zero = hussainy(14.7, 0.0)
     idx = _sample_rows(n, nquad)
     mq = [hussainy(float(p[i])) for i in idx]
     f = 2.0 * p / (mu * z)
@@ -185,7 +195,11 @@ def gas_sweeps(comp):
             raw["additive"] = {"a": float(p[idx[k - 2]]), "b": float(p[idx[k - 1]]), "m_ac": ac, "m_ab": seg[k - 1],
                                "m_bc": seg[k]}
         own = hussainy(float(p[i]), float(p[i]))
-        flags = {"zero_at_reference": zero_ref, "zero_at_own_reference": own == 0.0,
+        if k % 4 == 0:
+            from_zero = hussainy(float(p[i]), 0.0)
+            agree["additive_zero"] = rel15(from_zero, m_std_from_zero + mq[k])
+            raw["additive_zero"] = {"m_from_0": from_zero, "m_0_to_14.7": m_std_from_zero, "m_from_14.7": mq[k]}
+        flags = {"zero_at_reference": zero_ref, "zero_at_own_reference": own == 0.0, "zero_at_zero_reference": zero_zero,
                  "finite": bool(math.isfinite(mq[k]))}
         qpoints.append({"x": quant.q(p[i], *PWIN), "side": "none", "vals": {"m_quad": quant.q(mq[k], *MWIN)},
                         "agree": agree, "flags": flags, "raw": raw})
@@ -203,7 +217,7 @@ def random_table(seed: int, i: int):
         p = np.geomspace(float(rng.uniform(5, 50)), float(rng.uniform(2000, 15000)), n)   # log-spaced pressure nodes
     if i % 7 == 3:
         p = np.cumsum(rng.integers(1, 400, n)).astype(np.int64 if i % 2 else np.int32)   # whole-number pressures in an integer column
-    return p, mu, z, bool(i % 3 == 1)
+    return p, mu, z, bool(i % 3 == 1), ("series_permuted" if i % 4 == 1 else "series_default" if i % 8 == 6 else "ndarray")
 
 
 def alone_sweep(tab):
@@ -218,14 +232,26 @@ def alone_sweep(tab):
     if descending:   # a table listed from high to low pressure is a table with positive entries too
         p, mu, z, p_as_given = p[::-1].copy(), mu[::-1].copy(), z[::-1].copy(), p_as_given[::-1].copy()
     n = len(p)
-    m = np.asarray(pseudopressure(p_as_given.copy(), mu, z), dtype=float)
+    form = tab[4] if len(tab) > 4 else "ndarray"
+
+    def box(a, lo=0):
+        """The columns as the caller holds them: arrays, or columns of a frame whose row labels are not 0..n-1 in order (a table
+        that was sorted or filtered without reset_index): position, not label, is what orders a table."""
+        if form == "ndarray":
+            return a
+        import pandas as pd  # noqa: PLC0415
+
+        labels = np.arange(n) if form == "series_default" else np.random.default_rng(n).permutation(n)
+        return pd.Series(a, index=labels[lo:])
+
+    m = np.asarray(pseudopressure(box(p_as_given.copy()), box(mu), box(z)), dtype=float)
     fp = [Fraction(float(x)) for x in p]
     fr = [2 * fp[k] / (Fraction(float(mu[k])) * Fraction(float(z[k]))) for k in range(n)]
     ref = [Fraction(0)]
     for k in range(1, n):
         ref.append(ref[-1] + (fp[k] - fp[k - 1]) * (fr[k] + fr[k - 1]) / 2)
     b = n // 3
-    sub = np.asarray(pseudopressure(p_as_given[b:].copy(), mu[b:], z[b:]), dtype=float)
+    sub = np.asarray(pseudopressure(box(p_as_given[b:].copy(), b), box(mu[b:], b), box(z[b:], b)), dtype=float)
     pts = []
     for k in range(n):
         agree = {"exact": 0 if Fraction(float(m[k])) == ref[k] else quant.e15_of(float(abs(Fraction(float(m[k])) - ref[k])
@@ -241,8 +267,8 @@ def alone_sweep(tab):
     if descending:   # points are judged in order of increasing pressure: m must increase with pressure either way
         pts.reverse()
     meta = {"what": f"random {'descending ' if descending else ''}table with {n} rows, p {p[0]:.4g}..{p[-1]:.6g} "
-                    f"({p_as_given.dtype} pressures)",
-            "table": [p_as_given.tolist(), mu.tolist(), z.tolist()], "pressure_dtype": str(p_as_given.dtype)}
+                    f"({p_as_given.dtype} pressures, columns handed over as {form})",
+            "table": [p_as_given.tolist(), mu.tolist(), z.tolist(), False, form], "pressure_dtype": str(p_as_given.dtype)}
     return [{"profile": "alone", "meta": meta, "points": pts}]
 
 
